@@ -44,7 +44,11 @@ RULE = ("recipe cases: 1-4 tables, heterogeneous templates per table, friends, h
         "sets in different files starting on the same line number; update recipes with pass-through columns; recipes the "
         "parser must refuse; direct cases: the stream classes driven with synthetic typed rows (tables obtained through the "
         "real parser), database visibility watched by a second connection; buffer cases: thresholds with default and "
-        "overridden limits; mux cases: fan-out over test doubles with failing writes / closes.  Oracle: decoded cell == "
+        "overridden limits; mux cases: fan-out over test doubles with failing writes / closes; twin cases (direct and recipe): "
+        "values Python calls equal (same hash) that are written differently -- one instant in several UTC offsets, an integer "
+        "as bool / int / Decimal with different exponents -- in one row, in several rows of one table and field, in different "
+        "tables, under several outputs at once, and after an earlier session / run in the same process that wrote other "
+        "members of the family (and equal floats) to tables of the same names.  Oracle: decoded cell == "
         "encoding table (DESIGN appendix B) of the raw value captured at write_row; same tables, counts, ids, order of rows.  "
         "Model comparison: schema inferred by the model's parser from the recipe syntax vs the columns of the artefacts, "
         "sampled rows per format, buffer trace, run summaries, and for every artefact up to 6000 characters its bytes: read by "
@@ -54,7 +58,8 @@ RULE = ("recipe cases: 1-4 tables, heterogeneous templates per table, friends, h
 TRUSTED = ["harness/c08.py: capture stream, decoders (csv.reader, json.loads, sqlite3 on the database and on the executed "
            "SQL script, regex reader for the debug text), the Python copy of the encoder table used by the oracle, the Python "
            "mirror of the parser's registration order (oracle side of the schema), the ports of the writers (csv.writer, "
-           "json.dumps, SQLite quote) that only decide whether an artefact is expected to be byte-exact"]
+           "json.dumps, SQLite quote) that only decide whether an artefact is expected to be byte-exact; CPython's == on "
+           "None / bool / int / date / datetime values (the expected side of the model's py_eq)"]
 ASSUMPTIONS = ["sqlite3 and SQLAlchemy move cells faithfully between the stream and the database file (the csv / json / sql-dump "
                "text formats themselves are modelled, proved invertible and compared byte by byte for artefacts up to 6000 characters; "
                "larger artefacts are only read by Python's csv / json / sqlite3)",
@@ -108,8 +113,88 @@ def gen_value(rng, allow_big=True, allow_k9=False):
     return ["str", s]
 
 
+# ---------------------------------------------------------------------------- twins (round 4)
+# Values that Python calls equal (== and the same hash) although every one of them has its own written form:
+# one instant in several UTC offsets; an integer as bool / int / Decimal with different exponents.  A run that
+# holds several members of such a family -- in one row, in several rows of a table, in different tables -- or
+# that comes after an earlier run of the same process that wrote another member must still write every cell
+# from its own value (anything that looks encoded values up by equality writes the first member's text).
+TWIN_OFFSETS = [0, 0, 330, -330, 345, -720, 840, 60, -60, 1, -1, 59, 1439, -1439]
+
+
+def _canon_dec(s):
+    return ["dec", str(decimal.Decimal(s))]
+
+
+def gen_twin_family(rng):
+    """-> (kind, members): value specs that are pairwise equal in Python (kinds instant, number) or have the same
+    str() although they are of different types (kind same_str), all written differently somewhere"""
+    r0 = rng.random()
+    if r0 < 0.15:
+        n = rng.choice([0, 1, -3, 12, 2 ** 40])
+        dt = ["dt", rng.choice([2020, 987]), rng.randint(1, 12), rng.randint(1, 28), rng.randint(0, 23), 59, 0,
+              rng.choice([0, 250000]), rng.choice([None, 0, 330, -720])]
+        members = rng.choice([
+            [["bool", True], ["str", "True"]], [["bool", False], ["str", "False"]], [["none"], ["str", "None"]],
+            [["int", n], ["str", str(n)], ["dec", str(n)]], [["dec", "1.50"], ["str", "1.50"]],
+            [["date", 2020, 2, 29], ["str", "2020-02-29"]], [dt, ["str", _dt_str(dt)]]])
+        members = [list(m) for m in members]
+        rng.shuffle(members)
+        assert len({str(py_value(m)) for m in members}) == 1, members
+        return "same_str", members
+    if r0 < 0.6:
+        y = rng.choice([2021, 1999, 2, 9998, 987, rng.randint(2, 9998)])
+        base = datetime.datetime(y, rng.randint(1, 12), rng.randint(1, 28), rng.choice([0, 23, 12, rng.randint(0, 23)]),
+                                 rng.choice([0, 59, 30, rng.randint(0, 59)]), rng.choice([0, 59, rng.randint(0, 59)]),
+                                 rng.choice([0, 0, 123, 999999, rng.randint(1, 999999)]), tzinfo=datetime.timezone.utc)
+        offs = []
+        for o in rng.sample(TWIN_OFFSETS, 4) + [rng.randint(-1439, 1439)]:
+            if o not in offs:
+                offs.append(o)
+        members = []
+        for o in offs:
+            x = base.astimezone(datetime.timezone(datetime.timedelta(minutes=o)))
+            members.append(["dt", x.year, x.month, x.day, x.hour, x.minute, x.second, x.microsecond, o])
+        kind = "instant"
+    else:
+        n = rng.choice([0, 0, 1, 1, -1, 3, 7, 10, 1000, -7, 123, 2 ** 53 + 1, -2 ** 31 - 1, rng.randint(-10 ** 6, 10 ** 6)])
+        members = [["int", n], _canon_dec("%d.0" % n), _canon_dec("%d.00" % n), _canon_dec("%d.000000" % n)]
+        if n in (0, 1):
+            members.append(["bool", bool(n)])
+        if n == 0:
+            members += [_canon_dec("-0"), _canon_dec("-0.0"), _canon_dec("0E-10"), _canon_dec("0E+2")]
+        else:
+            members.append(_canon_dec(str(n)))
+            m, e = abs(n), 0
+            while m % 10 == 0:
+                m, e = m // 10, e + 1
+            if e:
+                members.append(_canon_dec("%s%dE+%d" % ("-" if n < 0 else "", m, e)))
+        uniq = []
+        for m in members:
+            if m not in uniq:
+                uniq.append(m)
+        members = uniq
+        rng.shuffle(members)
+        kind = "number"
+    pv = [py_value(m) for m in members]
+    assert all(a == b and hash(a) == hash(b) for a in pv for b in pv), members
+    return kind, members
+
+
+def twin_floats(kind, members):
+    """floats equal to a number family: only ever written by an EARLIER run (floats are never compared)"""
+    if kind != "number":
+        return []
+    n = py_value(members[0])
+    f = float(n)
+    return [["float", repr(f)]] + ([["float", "-0.0"]] if f == 0 else []) if f == n else []
+
+
 def py_value(v):
     k = v[0]
+    if k == "float":
+        return float(v[1])
     if k == "none":
         return None
     if k in ("bool", "int", "str"):
@@ -717,6 +802,150 @@ def gen_direct_case(rng, k9=False, k10=False):
     return case
 
 
+def _twin_plan(rng):
+    """-> (where, [(kind, members of this run, members of the earlier run)])"""
+    where = rng.choice(["same_run", "same_run", "earlier_run", "both"])
+    plan = []
+    for _ in range(rng.choice([1, 1, 2])):
+        kind, members = gen_twin_family(rng)
+        k = 1 if where == "earlier_run" else rng.randint(2, min(4, len(members)))
+        here, rest = members[:k], members[k:]
+        if where == "same_run":
+            earlier = []
+        else:
+            # the earlier run starts with a member this run does not hold, so that whatever remembers "the first
+            # one" remembers a text no cell of this run may show
+            earlier = (rest or members[:1])[:2] + twin_floats(kind, members) + (here[-1:] if rng.random() < 0.5 else [])
+        plan.append((kind, here, earlier))
+    return where, plan
+
+
+def gen_direct_twin_case(rng):
+    """a direct case whose rows hold several members of a twin family (see gen_twin_family): in one row, in
+    several rows of one table and field, in different tables; optionally after an earlier session of the same
+    process (other stream objects, other files, the same table names) that wrote other members"""
+    for _ in range(30):
+        case = gen_direct_case(rng)
+        rows = case["rows"]
+        cells = [(i, j) for i, (_, r) in enumerate(rows) for j, (k, _) in enumerate(r) if k not in ("id", "_sf_update_key")]
+        if len(cells) >= 3:
+            break
+    else:
+        case = {"kind": "direct", "outputs": list(rng.choice(OUTPUT_SETS)),
+                "templates": [{"table": "A", "fields": [["f0", None], ["f1", None]], "friends": []},
+                              {"table": "B", "fields": [["f0", None]], "friends": []}],
+                "rows": [["A", [["id", ["int", 1]], ["f0", ["none"]], ["f1", ["none"]]]],
+                         ["B", [["id", ["int", 1]], ["f0", ["none"]]]], ["A", [["id", ["int", 2]], ["f0", ["none"]], ["f1", ["none"]]]]]}
+        rows = case["rows"]
+        cells = [(i, j) for i, (_, r) in enumerate(rows) for j, (k, _) in enumerate(r) if k not in ("id", "_sf_update_key")]
+    for _, r in rows:       # nothing the database would refuse: the rows must arrive
+        for kv in r:
+            if kv[1][0] == "int" and not I64_LO <= kv[1][1] < I64_HI or kv[1][0] == "ref" and not I64_LO <= kv[1][2] < I64_HI:
+                kv[1] = ["int", 5]
+    where, plan = _twin_plan(rng)
+    rng.shuffle(cells)
+    placed = []
+    for fi, (kind, here, earlier) in enumerate(plan):
+        # every member at least once, some of them again later (the same value written twice is fine as well)
+        seq = list(here) + [rng.choice(here) for _ in range(rng.randint(0, 2))]
+        for m in seq:
+            if not cells:
+                break
+            i, j = cells.pop()
+            rows[i][1][j] = [rows[i][1][j][0], list(m)]
+            placed.append([fi, i, rows[i][0], rows[i][1][j][0]])
+    prelude = []
+    if where != "same_run":
+        # the earlier session writes rows of the same tables: copies of this run's rows in which the twin cells
+        # hold OTHER members of their family, first of all one this run never writes
+        pos = {(i, f): fi for fi, i, _, f in placed}
+        nxt = Counter()
+        for i, (t, r) in enumerate(rows):
+            r2 = []
+            for k, v in r:
+                fi = pos.get((i, k))
+                if fi is not None and plan[fi][2]:
+                    e = plan[fi][2]
+                    r2.append([k, list(e[nxt[fi] % len(e)])])
+                    nxt[fi] += 1
+                else:
+                    r2.append([k, v])
+            prelude.append([t, r2])
+        if rng.random() < 0.3:
+            rng.shuffle(prelude)
+    spread = set()
+    for fi in range(len(plan)):
+        ps = [p for p in placed if p[0] == fi]
+        if len({p[1] for p in ps}) < len(ps):
+            spread.add("one_row")
+        if len({p[2] for p in ps}) > 1:
+            spread.add("different_tables")
+        if any(a[1] != b[1] and a[2:] == b[2:] for a in ps for b in ps):
+            spread.add("one_table_and_field")
+    case["twins"] = {"where": where, "kinds": [k for k, _, _ in plan], "spread": sorted(spread), "cells": len(placed)}
+    if prelude:
+        case["prelude"] = prelude
+    return case
+
+
+def _val_slots(case):
+    """top-level templates of the main file that sit in a visible table"""
+    return [t for t in case["templates"] if "table" in t and not t["table"].startswith("__")]
+
+
+def add_recipe_twins(rng, case):
+    """recipe case -> the same case with members of twin families among its plugin values, each used by a field
+    of a visible top-level template; `prelude_values`: the values of an earlier run of the same recipe in the same
+    process (into other files), in which those fields hold other members of the family"""
+    where, plan = _twin_plan(rng)
+    values = case["values"]
+    prelude_values = None
+    slots = _val_slots(case)
+    if not slots:
+        slots = [{"table": "A", "count": None, "fields": [], "friends": []}]
+        case["templates"].append(slots[0])
+    last_name = None
+    used = []
+    tabs_used = []
+    for kind, here, earlier in plan:
+        for mi, m in enumerate(here):
+            values.append(list(m))
+            idx = len(values) - 1
+            used.append((idx, earlier, mi))
+            t = rng.choice(slots)
+            have = [n for n, _ in t["fields"]]
+            free = [n for n in FIELDS if n not in have]
+            if last_name in free and rng.random() < 0.5:
+                name = last_name          # the same field name as the previous member: one table and field when the tables agree
+            elif free:
+                name = rng.choice(free)
+            else:
+                name = None
+            if name is None:
+                cands = [j for j, (n, _) in enumerate(t["fields"]) if n != t.get("upd") and not n.startswith("__")]
+                if not cands:
+                    continue
+                j = rng.choice(cands)
+                t["fields"][j] = [t["fields"][j][0], ["val", idx]]
+                name = t["fields"][j][0]
+            else:
+                t["fields"].append([name, ["val", idx]])
+            last_name = name
+            tabs_used.append((t["table"], name))
+            if t.get("count") == 0:
+                t["count"] = rng.choice([1, 2])
+    if where != "same_run":
+        prelude_values = [list(v) for v in values]
+        for idx, earlier, mi in used:
+            if earlier:
+                prelude_values[idx] = list(earlier[mi % len(earlier)])
+        case["prelude_values"] = prelude_values
+    case["twins"] = {"where": where, "kinds": [k for k, _, _ in plan], "cells": len(used),
+                     "spread": sorted(({"different_tables"} if len({t for t, _ in tabs_used}) > 1 else set())
+                                      | ({"one_table_and_field"} if len(set(tabs_used)) < len(tabs_used) else set()))}
+    return case
+
+
 def generate(rng, tier):
     cases = []
     quick = tier == "quick"
@@ -725,6 +954,14 @@ def generate(rng, tier):
         cases.append(gen_direct_case(rng))
     for _ in range(4 if quick else 30):
         cases.append(gen_direct_case(rng, k9=True))
+    # ---- twins: values Python calls equal that are written differently, in one run and across runs of one process
+    for _ in range(70 if quick else 900):
+        cases.append(gen_direct_twin_case(rng))
+    for i in range(20 if quick else 240):
+        c = gen_recipe_case(rng, outputs=list(OUTPUT_SETS[i % len(OUTPUT_SETS)]))
+        cases.append(add_recipe_twins(rng, c))
+    for _ in range(8 if quick else 100):
+        cases.append(add_recipe_twins(rng, gen_project_case(rng)))
     # ---- recipes: every output set, small counts
     for outs in OUTPUT_SETS:
         for _ in range(2 if quick else 25):
@@ -1303,6 +1540,21 @@ def run_recipe_case(case):
         if csv_folder is not None:
             kw.update(output_format="csv", output_folder=str(csv_folder))
         obs = {"raw_counts": dict(Counter(t for t, _ in raw)), "nrows": len(raw)}
+        if case.get("prelude_values"):
+            # an earlier run of the same recipe in this process, with other plugin values, into other files
+            try:
+                pd = d / "earlier"
+                (pd / "plugins").mkdir(parents=True)
+                (pd / "plugins" / (mod + "e.py")).write_text(plugin_source(case["prelude_values"]), encoding="utf-8")
+                for name, text in render_project(case, mod + "e")[0].items():
+                    (pd / name).write_text(text, encoding="utf-8")
+                pfiles, pdburls, pcsv, _ = _output_paths(pd, case["outputs"])
+                pkw = dict(output_format="csv", output_folder=str(pcsv)) if pcsv is not None else {}
+                generate_data(str(pd / MAIN_FILE), parent_application=QuietApp(), output_files=pfiles or None,
+                              dburls=pdburls, **pkw)
+            except BaseException as e:
+                if type(e).__name__ == "_CaseTimeout":
+                    raise
         try:
             generate_data(str(rp), parent_application=app, output_files=files or None, dburls=dburls, **kw, **cont_kw)
             obs["run"] = "ok"
@@ -1443,6 +1695,30 @@ def _changes(trace):
     return out
 
 
+def _direct_prelude(case, d):
+    """an earlier session of the same process: the same kinds of streams (fresh objects, other files, tables of
+    the same names) receive case["prelude"] and are closed.  Nothing of it is compared -- whatever it does, the
+    session that follows must write its own values."""
+    from snowfakery import output_streams as OS
+    try:
+        d.mkdir()
+        tables = build_tables(case["templates"])
+        streams, n = [], Counter()
+        for o in case["outputs"]:
+            n[o] += 1
+            streams.append(_make_stream(o, d / ("csv%d" % n[o] if o == "csv" else "o%d.%s" % (n[o], o))))
+        top = streams[0] if len(streams) == 1 else OS.MultiplexOutputStream(streams)
+        top.create_or_validate_tables(tables)
+        try:
+            for t, row in case["prelude"]:
+                top.write_row(t, {k: impl_value(v) for k, v in row})
+        finally:
+            top.close()
+    except BaseException as e:
+        if type(e).__name__ == "_CaseTimeout":
+            raise
+
+
 def run_direct_case(case):
     from snowfakery import output_streams as OS
     d = Path(tempfile.mkdtemp(prefix="sfv_c08_", dir="/var/tmp"))
@@ -1452,6 +1728,8 @@ def run_direct_case(case):
             tables = build_tables(case["templates"])
         except Exception as e:
             return {"skip": "TableInfo could not be built the way the harness does: %s" % type(e).__name__}
+        if case.get("prelude"):
+            _direct_prelude(case, d / "earlier")
         order, streams, n = [], [], Counter()
         for o in case["outputs"]:
             n[o] += 1
@@ -2006,8 +2284,40 @@ def summary_term(o):
     return "SumFile %s %s" % (C.cbool(o["closed"]), C.cz(sum(o["counts"].values())))
 
 
+PYEQ_KINDS = ("dt", "bool", "int", "date", "none")
+
+
+def pyeq_terms(case):
+    """XPyEq terms: CPython's == on pairs of the case's values, for the model's py_eq (the fragment it models:
+    no Decimals, whose numeric equality the model does not have)"""
+    if not case.get("twins"):
+        return []
+    if case["kind"] == "direct":
+        vals = [v for _, r in case["rows"] + case.get("prelude", []) for k, v in r if k != "id"]
+    else:
+        vals = list(case.get("values", [])) + list(case.get("prelude_values") or [])
+    pool = []
+    for v in vals:
+        if v[0] in PYEQ_KINDS and v not in pool:
+            pool.append(v)
+    pool = pool[:7]
+    terms = []
+    for i, a in enumerate(pool):
+        for b in pool[i:]:
+            try:
+                e = bool(py_value(a) == py_value(b))
+            except Exception:
+                continue
+            terms.append(f"XPyEq {cvalue(a)} {cvalue(b)} {C.cbool(e)}")
+            if a is not b:
+                terms.append(f"XPyEq {cvalue(b)} {cvalue(a)} {C.cbool(e)}")
+    return terms
+
+
 def coq_case(case, obs):
     base, extra = coq_terms(case, obs)
+    if not (isinstance(obs, dict) and obs.get("skip")):
+        extra = list(extra) + pyeq_terms(case)
     if base is None and not extra:
         return None
     parts = (["(XBase (%s))" % base] if base is not None else []) + ["(%s)" % t for t in extra]
@@ -2311,6 +2621,22 @@ def stats(cases, obss):
                 feats["macro_defined_in_include_file"] += 1
             if c["kind"] == "recipe" and c.get("files") and same_line_templates(c):
                 feats["same_table_same_line_in_two_files"] += 1
+    twins = Counter()
+    for c in cases:
+        tw = c.get("twins")
+        if not tw:
+            continue
+        twins["cases:" + c["kind"]] += 1
+        twins["where:" + tw["where"]] += 1
+        for k in set(tw["kinds"]):
+            twins["family:" + k] += 1
+        for sp in tw.get("spread", []):
+            twins["spread:" + sp] += 1
+        for o in set(c.get("outputs", [])):
+            twins["format:" + o] += 1
+        if len(c.get("outputs", [])) > 1:
+            twins["several_outputs_at_once"] += 1
+        twins["twin_cells"] += tw.get("cells", 0)
     exact = Counter()
     for c, o in zip(cases, obss):
         if not isinstance(o, dict) or "outputs" not in o or c["kind"] not in ("recipe", "direct"):
@@ -2326,7 +2652,7 @@ def stats(cases, obss):
             exact["error"] += 1
     return {"kinds": dict(kinds), "output_sets": dict(outs), "formats": dict(fmts), "value_types": dict(vals),
             "row_counts": dict(sizes), "outcomes": dict(outcomes), "features": dict(feats),
-            "artefacts_compared_as_bytes": dict(exact)}
+            "equal_but_differently_written_values": dict(twins), "artefacts_compared_as_bytes": dict(exact)}
 
 
 def violation_class(case, obs, msg):
